@@ -5,5 +5,6 @@ CONSTANTS
   Leaves = {}
   KidsRoot = 0
   KidsRest = 0
+  Schemes = {"ord"}
   CodeFixes = {}
 INVARIANT Verdict
